@@ -518,12 +518,21 @@ class Engine:
 
     def _proj_read(self, fr, v, projs):
         for p in projs:
+            if isinstance(v, Opaque) and getattr(self, 'lenient', False):
+                return Opaque(v.tag + '.' + str(p[-1]))
             if p[0] == 'deref':
-                while isinstance(v, Ref): v = self.read_place(v.frame, v.place)
+                if isinstance(v, Ref):
+                    # one level only: `*r` for r: &Box<T> is the Box, not its content (a Ref to a Ref is a re-borrow chain)
+                    while isinstance(v, Ref): v = self.read_place(v.frame, v.place)
+                    continue
+                if type(v).__name__ == 'FRef': v = v.acct_ref.data; continue
                 if isinstance(v, Boxed): v = v.val
             elif p[0] == 'field':
                 while isinstance(v, Ref): v = self.read_place(v.frame, v.place)
+                if type(v).__name__ == 'FRef': v = v.acct_ref.data
+                if isinstance(v, Opaque) and getattr(self, 'lenient', False): return Opaque(v.tag + '.' + str(p[1]))
                 if isinstance(v, Boxed): continue
+                if type(v).__name__ == 'Acct': continue      # wrapper internals (info / account) of an Anchor account value
                 if isinstance(v, E): v = v.fields[int(p[1])]
                 elif isinstance(v, U256): raise NotImplementedError('field of U256')
                 else: v = v.get(p[1])
@@ -547,6 +556,19 @@ class Engine:
         base, projs = self.parse_place(pl)
         if not projs:
             fr.loc[base] = val; return
+        cur0 = fr.loc.get(base)
+        if getattr(self, 'lenient', False) and projs[0] == ('deref',) and type(cur0).__name__ == 'FRef':
+            a = cur0.acct_ref
+            a.data = self._proj_write(fr, a.data, projs[1:], val) if projs[1:] else val
+            return
+        if getattr(self, 'lenient', False) and isinstance(cur0, Boxed):
+            # writes through a Box pointer (possibly after `.0.0` Unique/NonNull projections and a deref) update the shared cell in place
+            rest = list(projs)
+            while rest and (rest[0] == ('deref',) or (rest[0][0] == 'field' and rest[0][1] == '0' and isinstance(cur0.val, (Opaque, Boxed)) is False and False)):
+                rest = rest[1:]
+            if projs[0] == ('deref',):
+                cur0.val = self._proj_write(fr, cur0.val, projs[1:], val) if projs[1:] else val
+                return
         if projs[0] == ('deref',) and isinstance(fr.loc.get(base), Ref):
             r = fr.loc[base]
             rest = projs[1:]
@@ -561,6 +583,17 @@ class Engine:
     def _proj_write(self, fr, cur, projs, val):
         if not projs: return val
         p = projs[0]
+        if getattr(self, 'lenient', False):
+            if isinstance(cur, Opaque) or cur is None and p[0] != 'field':
+                return self._proj_write(fr, cur, projs[1:], val)     # transparent wrappers (MaybeUninit, ManuallyDrop, ...) over nothing
+            if p[0] == 'deref':
+                if isinstance(cur, Boxed):
+                    cur.val = self._proj_write(fr, cur.val, projs[1:], val); return cur
+                if type(cur).__name__ == 'FRef':
+                    cur.acct_ref.data = self._proj_write(fr, cur.acct_ref.data, projs[1:], val); return cur
+                if isinstance(cur, Ref):
+                    inner = self.read_place(cur.frame, cur.place)
+                    self.write_place(cur.frame, cur.place, self._proj_write(fr, inner, projs[1:], val)); return cur
         if p[0] == 'field':
             if cur is None: cur = S({})
             if isinstance(cur, S):
@@ -587,6 +620,7 @@ class Engine:
     # ---------------------------------------------------------------- operands / rvalues
     def operand(self, fr, s):
         s = s.strip()
+        if s.startswith('no_retag '): s = s[9:].strip()
         if s.startswith(('copy ', 'move ')): return self.read_place(fr, s[5:])
         if s.startswith('const '):
             c = s[6:].strip()
@@ -709,7 +743,7 @@ class Engine:
             return const_int(len(v.items), 'usize')
         m = re.match(r'^CopyForDeref\((.*)\)$', rv)
         if m: return self.read_place(fr, m.group(1))
-        if rv.startswith(('copy ', 'move ', 'const ')): return self.operand(fr, rv)
+        if rv.startswith(('copy ', 'move ', 'const ', 'no_retag ')): return self.operand(fr, rv)
         if rv.startswith('[') and rv.endswith(']'):
             inner = rv[1:-1]
             m = re.match(r'^(.*); (\d+)$', inner)
@@ -755,9 +789,45 @@ class Engine:
 
     def clone(self, fr):
         f2 = Frame(fr.fn); f2.loc = dict(fr.loc)
+        memo = {}
         for k, v in f2.loc.items():
             if isinstance(v, Ref) and v.frame is fr: f2.loc[k] = Ref(f2, v.place)
+            elif getattr(self, 'lenient', False): f2.loc[k] = self._copy_cells(v, memo, fr, f2)
         return f2
+
+    def _copy_cells(self, v, memo, fr, f2):
+        """mutable cells (Box contents, account data) are copied per path so that in-place writes do not leak between forks;
+        sharing between the copies inside one frame is preserved"""
+        k = id(v)
+        if k in memo: return memo[k]
+        r = v
+        if isinstance(v, Boxed):
+            r = Boxed(None); memo[k] = r
+            r.val = self._copy_cells(v.val, memo, fr, f2)
+            return r
+        if type(v).__name__ == 'Acct':
+            r = type(v)(v.name, v.key, None); memo[k] = r
+            r.data = self._copy_cells(v.data, memo, fr, f2)
+            return r
+        if type(v).__name__ == 'FRef':
+            r = type(v)(self._copy_cells(v.acct_ref, memo, fr, f2))
+        elif isinstance(v, Ref) and v.frame is fr:
+            r = Ref(f2, v.place)
+        elif isinstance(v, S):
+            if isinstance(v.fields, dict):
+                d = {a: self._copy_cells(b, memo, fr, f2) for a, b in v.fields.items()}
+                if any(d[a] is not v.fields[a] for a in d): r = S(d)
+            else:
+                l = [self._copy_cells(b, memo, fr, f2) for b in v.fields]
+                if any(x is not y for x, y in zip(l, v.fields)): r = S(l)
+        elif isinstance(v, E):
+            l = [self._copy_cells(b, memo, fr, f2) for b in v.fields]
+            if any(x is not y for x, y in zip(l, v.fields)): r = E(v.var, l)
+        elif isinstance(v, Arr):
+            l = [self._copy_cells(b, memo, fr, f2) for b in v.items]
+            if any(x is not y for x, y in zip(l, v.items)): r = Arr(l)
+        memo[k] = r
+        return r
 
     def run_block(self, fr, bb, path, steps, entry=False):
         while True:
@@ -851,7 +921,18 @@ class Engine:
                     m = cm
                     dest, callee, argstr, nxt = m
                     cargs = [self.operand(fr, a) for a in split_top(argstr)]
-                    outs = list(self.call(callee, cargs, path))
+                    if getattr(self, 'lenient', False):
+                        from . import handler as H
+                        if any(rx.search(callee) for rx in self.record_rx):
+                            outs = list(H.call_fallback(self, fr, dest, callee, cargs, path))
+                        else:
+                            try:
+                                outs = list(self.call(callee, cargs, path))
+                            except NotImplementedError as ex:
+                                if not str(ex).startswith('call '): raise
+                                outs = list(H.call_fallback(self, fr, dest, callee, cargs, path))
+                    else:
+                        outs = list(self.call(callee, cargs, path))
                     if not outs: return
                     for i, (p2, rv) in enumerate(outs):
                         if isinstance(rv, Panic):
@@ -867,7 +948,10 @@ class Engine:
                 m = re.match(r'^(.*?) = (.*)$', st, re.S)
                 if m:
                     side = []
-                    v = self.rvalue(fr, m.group(2), side)
+                    try:
+                        v = self.rvalue(fr, m.group(2), side)
+                    except (AttributeError, AssertionError, KeyError, IndexError, TypeError) as ex:
+                        raise NotImplementedError(f'{fr.fn.name} {bb}: `{st}`: {type(ex).__name__}: {ex}')
                     if side:
                         path = Path(path.pc + [x for x in side if x[0] != 'event'], path.trace + [x for x in side if x[0] == 'event'])
                     self.write_place(fr, m.group(1).strip(), v)
